@@ -28,7 +28,10 @@ func (returning Returning) Build(builder Builder) {
 func (returning Returning) MergeClause(clause *Clause) {
 	if v, ok := clause.Expression.(Returning); ok && len(returning.Columns) > 0 {
 		if v.Columns != nil {
-			returning.Columns = append(v.Columns, returning.Columns...)
+			// copy, the existing clause may be shared with other statements
+			columns := make([]Column, 0, len(v.Columns)+len(returning.Columns))
+			columns = append(columns, v.Columns...)
+			returning.Columns = append(columns, returning.Columns...)
 		} else {
 			returning.Columns = nil
 		}
